@@ -1,11 +1,14 @@
 package props
 
 import (
+	"context"
+	"crypto/tls"
 	"fmt"
 	"runtime"
 	"strings"
 	"sync"
 	"sync/atomic"
+	"time"
 
 	"github.com/fluffle/goirc/client"
 
@@ -301,6 +304,72 @@ func runC06Poll(c *Ctx) {
 	}
 }
 
+// c06CancelMidHandshake: the connect context ends while the TLS handshake (which does not look at it) is still under
+// way; the server then completes the handshake. Whatever Connect returns, the lifecycle events agree with it: a Connect
+// that returns nil has dispatched REGISTER once and the connection (ended by the cancellation) gets its one
+// DISCONNECTED; a Connect that returns an error fires no event at all.
+func c06CancelMidHandshake(c *Ctx, idx int, r interface{ Intn(int) int }) {
+	_, pool, terr := rig.TestTLS()
+	if terr != nil {
+		c.R.Inconcl("test certificate: " + terr.Error())
+		return
+	}
+	lg := rig.NewLog()
+	s := NewSession(SessionOpts{Tracking: r.Intn(2) == 0, CtxAware: r.Intn(2) == 0, Flood: true, Log: lg, Mutate: func(cfg *client.Config) {
+		cfg.SSL = true
+		cfg.SSLConfig = &tls.Config{RootCAs: pool, ServerName: "irc.test"}
+	}})
+	defer s.Release()
+	var regs, discs int64
+	s.Conn.HandleFunc(client.REGISTER, func(_ *client.Conn, l *client.Line) { atomic.AddInt64(&regs, 1) })
+	s.Conn.HandleFunc(client.DISCONNECTED, func(_ *client.Conn, l *client.Line) { atomic.AddInt64(&discs, 1) })
+	gate := make(chan struct{})
+	s.EP.Prepare(func(mc *rig.MemConn) { rig.ServeTLSGated(mc, gate) })
+	ctx, cancel := context.WithCancel(context.Background())
+	defer cancel()
+	var cerr error
+	ret := make(chan struct{})
+	go func() { cerr = s.Conn.ConnectContext(ctx); close(ret) }()
+	// the client has dialled and sent its hello
+	if !waitUntil(func() bool { mc := s.EP.Last(); return mc != nil && len(mc.Transcript()) > 0 }) {
+		c.R.Inconcl(fmt.Sprintf("%s: the client never started the TLS handshake", Case("fail", idx)))
+		close(gate)
+		return
+	}
+	cancel()
+	if r.Intn(2) == 0 {
+		time.Sleep(time.Duration(r.Intn(1500)) * time.Microsecond)
+	}
+	close(gate)
+	if !waitCh(ret) {
+		ds := rig.ProveDead(WaitShort)
+		if ds.Dead {
+			c.R.Violate(rig.Violation{Sig: "c06|connect-never-returns|" + ds.Signature, Detail: "ConnectContext whose context ended during the TLS handshake never returns: " + ds.Signature, Case: Case("fail", idx)})
+		} else {
+			c.R.Inconcl(fmt.Sprintf("%s: ConnectContext did not return (%s)", Case("fail", idx), ds.Reason))
+		}
+		return
+	}
+	// the cancellation ends whatever was established; wait until nothing of the library is left running
+	if _, clean := rig.WaitNoLib(WaitShort, 400); !clean {
+		c.R.Inconcl(fmt.Sprintf("%s: library goroutines still running after the cancelled connect", Case("fail", idx)))
+		return
+	}
+	c.R.Eval(1)
+	rg, dc := atomic.LoadInt64(&regs), atomic.LoadInt64(&discs)
+	want := int64(0)
+	if cerr == nil {
+		want = 1
+	}
+	if rg != want || dc != want {
+		c.R.Violate(rig.Violation{Sig: "c06|events-disagree-with-connect-result", Detail: fmt.Sprintf("the connect context ended during the TLS handshake; ConnectContext returned %v, REGISTER fired %d times, DISCONNECTED %d times (want %d each)", cerr, rg, dc, want), Case: Case("fail", idx)})
+	}
+	if s.Conn.Connected() {
+		c.R.Violate(rig.Violation{Sig: "c06|connected-after-cancelled-connect", Detail: "Connected() is true after the cancelled connection has been torn down", Case: Case("fail", idx)})
+	}
+	c.R.Class(fmt.Sprintf("failure|tls-cancel-mid-handshake|returned-nil=%v", cerr == nil))
+}
+
 // runC06Failures: connects that fail or are refused fire no event.
 func runC06Failures(c *Ctx) {
 	n := c.Pick(60, 2000)
@@ -309,8 +378,12 @@ func runC06Failures(c *Ctx) {
 			continue
 		}
 		r := rig.Rand(c.Seed, "C06fail", idx)
-		kind := []string{"noserver", "refused", "refused-then-ok", "bad-proxy", "tls-handshake-fails", "tls-then-ok"}[idx%6]
+		kind := []string{"noserver", "refused", "refused-then-ok", "bad-proxy", "tls-handshake-fails", "tls-then-ok", "tls-cancel-mid-handshake"}[idx%7]
 		c.J.Log("CASE %s %s", Case("fail", idx), kind)
+		if kind == "tls-cancel-mid-handshake" {
+			c06CancelMidHandshake(c, idx, r)
+			continue
+		}
 		lg := rig.NewLog()
 		s := NewSession(SessionOpts{Tracking: r.Intn(2) == 0, CtxAware: r.Intn(2) == 0, Flood: true, Log: lg})
 		events := 0
